@@ -1153,7 +1153,7 @@ def _replay_job(cb):
                      'real': t['proj'][i] if i < len(t['proj']) else None, 'spec': cb['projs'][i]}
             break
     del t['proj']
-    return {'trace': t, 'sc': sc, 'steps': n, 'matched': ok, 'first': first, 'drift': t['detail']['drift']}
+    return {'trace': pack(t), 'sc': sc, 'steps': n, 'matched': ok, 'first': first, 'drift': t['detail']['drift']}
 
 
 # --------------------------------------------------------------------------- in-memory mutants
@@ -1446,6 +1446,34 @@ PRE_CONNECT = {'uint16_as_int16', 'caller_live_iteration'}       # the others ar
 
 
 # --------------------------------------------------------------------------- running / judging
+class Tr(dict):
+    """A recorded trace kept compressed (the parent process holds tens of thousands of them and forks worker
+    pools): t['cfg'] / t['ev'] are decoded on access; 'detail', 'stats', 'id', 'conf' are ordinary entries."""
+
+    def __getitem__(self, k):
+        if k in ('ev', 'cfg'):
+            import zlib
+            return json.loads(zlib.decompress(dict.__getitem__(self, '_z')))[k]
+        return dict.__getitem__(self, k)
+
+    def plain(self):
+        return {'cfg': self['cfg'], 'ev': self['ev'], 'detail': dict.get(self, 'detail')}
+
+
+def pack(t):
+    import hashlib
+    import zlib
+    if 'skipped' in t:
+        return t
+    ev = t['ev']
+    stats = {'nev': len(ev), 'nset': sum(1 for e in ev if e['e'] == 'call' and e['k'] == 'set'),
+             'ncall': sum(1 for e in ev if e['e'] == 'call'),
+             'key': hashlib.md5(json.dumps([e for e in ev if e['e'] != 'step'], sort_keys=True).encode()).hexdigest()}
+    r = Tr(detail=t.get('detail'), stats=stats)
+    dict.__setitem__(r, '_z', zlib.compress(json.dumps({'cfg': t['cfg'], 'ev': ev}, separators=(',', ':')).encode(), 3))
+    return r
+
+
 def _exec_job(job):
     sc, mutant = job
     undo = None
@@ -1460,7 +1488,7 @@ def _exec_job(job):
         elif phase == ('pre' if mutant in PRE_CONNECT else 'post'):
             holder['undo'] = MUTANTS[mutant](cf)
     try:
-        return execute(sc, wrapped if mutant else None)
+        return pack(execute(sc, wrapped if mutant else None))
     except (MutantSkipped, AttributeError) as e:
         if not mutant:
             raise
@@ -1484,7 +1512,7 @@ def run_scenarios(scs, mutant=None):
 
 def _batch(args):
     cfg, path = args
-    r = tlc.run('ParamProtoTrace.tla', cfg, workers=1, timeout=3000, env={'TRACE_FILE': path}, heap='3g')
+    r = tlc.run('ParamProtoTrace.tla', cfg, workers=1, timeout=3000, env={'TRACE_FILE': path}, heap='2g')
     return (r.output, r.distinct, r.generated, r.wall_s, r.violated)
 
 
@@ -1504,7 +1532,7 @@ def validate_groups(trace_cfg, groups, nproc, cfg_of=None):
             for i in range(0, len(ts), chunk):
                 path = '%s/%s-%d.json' % (d, g, i // chunk)
                 with open(path, 'w') as f:
-                    json.dump([{'id': t['id'], 'cfg': t['cfg'], 'ev': t['ev']} for t in ts[i:i + chunk]], f,
+                    json.dump([dict(id=t['id'], cfg=q['cfg'], ev=q['ev']) for t in ts[i:i + chunk] for q in [plain(t)]], f,
                               separators=(',', ':'))
                 jobs.append((cfg_of.get(g, trace_cfg), path))
                 owner.append(g)
@@ -1560,6 +1588,7 @@ def judge(out, traces, label, trace_cfg, nproc=None):
 
 def signature(t, clause, at):
     """clause + canonical witness class, computed from the failing trace"""
+    t = plain(t)
     ev = t['ev'][:max(at, 0)]
     calls = {e['rid']: e for e in ev if e['e'] == 'call'}
     issues = [e for e in ev if e['e'] == 'issue']
@@ -1645,13 +1674,13 @@ def _tlc_jobs(tier):
 def _run_tlc_job(job):
     kind, cfg, workers = job
     if kind == 'check':
-        return job, tlc.check('MC_ParamProto.tla', cfg, workers=workers, timeout=3000, coverage=False)
-    return job, tlc.expect_violation('MC_ParamProto.tla', cfg, workers=workers, timeout=900)
+        return job, tlc.check('MC_ParamProto.tla', cfg, workers=workers, timeout=3000, coverage=False, heap='3g')
+    return job, tlc.expect_violation('MC_ParamProto.tla', cfg, workers=workers, timeout=900, heap='1g')
 
 
 def _sim_job(arg):
     sim_cfg, nsim, seed = arg
-    rs, behs = tlc.simulate('MC_ParamProto.tla', sim_cfg, num=nsim, depth=70, seed=seed, timeout=2400)
+    rs, behs = tlc.simulate('MC_ParamProto.tla', sim_cfg, num=nsim, depth=70, seed=seed, timeout=2400, heap='1g')
     rs.output = rs.output[-1500:]
     return (sim_cfg, nsim, rs, [compact_behaviour(b) for b in behs if len(b) > 2])
 
@@ -1675,6 +1704,10 @@ def _tlc_helper(tier, sim_args, conn):
         conn.close()
 
 
+def plain(t):
+    return t.plain() if isinstance(t, Tr) else t
+
+
 def corrupted_traces(traces):
     """binding self-test: copies of recorded traces with one field changed / one event dropped"""
     def clean(t):      # no two reply callbacks in one dispatch (such traces are rejected anyway)
@@ -1687,8 +1720,9 @@ def corrupted_traces(traces):
                 if n > 1:
                     return False
         return not any(e['e'] == 'ext' and e['lib'] != (e['dev'] == 1) for e in t['ev'])
-    good = [t for t in traces if clean(t)]
     corrupt = []
+    good = (plain(t) for t in traces[:400])
+    good = [t for t in good if clean(t)]
     t0 = copy.deepcopy(next(t for t in good if any(e['e'] == 'cb' for e in t['ev'])))
     t0['ev'].pop(next(i for i, e in enumerate(t0['ev']) if e['e'] == 'cb'))
     corrupt.append(('drop-reply-callback-event', t0))
@@ -1710,13 +1744,21 @@ def corrupted_traces(traces):
 def report_violations(out, bad, scs_by_id):
     def size(b):
         sc = scs_by_id[b[0]['id']]
-        return (sum(len(u) for u in sc['users']), len(sc['users']), len(sc['notifs']), len(b[0]['ev']))
+        return (sum(len(u) for u in sc['users']), len(sc['users']), len(sc['notifs']), b[0]['stats']['nev'])
+    seen_sig = {}
     for (t, clause, at) in sorted(bad, key=size):
         sc = scs_by_id[t['id']]
+        tid = t['id']
+        t = plain(t)
+        sg = signature(t, clause, at)
+        seen_sig[sg] = seen_sig.get(sg, 0) + 1
+        if seen_sig[sg] > 3:                 # (finish() keeps the first of a signature; spare the rest of the work)
+            out.violation(sg, clause, {'event_index': at}, {'scenario': dict(sc, policy=['script', t['detail']['schedule']])})
+            continue
         rp = dict(sc)
         rp['policy'] = ['script', t['detail']['schedule']]
         lo = max(0, at - 14)
-        out.violation(signature(t, clause, at), clause,
+        out.violation(sg, clause,
                       {'event_index': at, 'users': sc['users'], 'notifs': sc['notifs'], 'dups': sc.get('dups'), 'connect_ntf': sc.get('connect_ntf'),
                        'types': t['cfg']['type'], 'events_before': t['ev'][lo:at], 'schedule': t['detail']['schedule']},
                       {'scenario': rp})
@@ -1774,7 +1816,7 @@ def main(tier, seed, replay=None):
     trace_cfg, sim_cfg = VARIANT_CFG[variant]
     out.extra['code_variant_detected'] = variant
     lap('variant probe')
-    nsim = 100 if tier == 'quick' else 600
+    nsim = 80 if tier == 'quick' else 600
     import multiprocessing as mp
     ctx = mp.get_context('fork')
     pipe_r, pipe_w = ctx.Pipe(duplex=False)
@@ -1786,7 +1828,7 @@ def main(tier, seed, replay=None):
     pipe_w.close()
     try:
         # 3a. code -> spec: enumerations + seeded random programs executed on the real code
-        msc = mutant_scenarios(rng, 32 if tier == 'quick' else 160)
+        msc = mutant_scenarios(rng, 20 if tier == 'quick' else 160)
         pairs = pair_scenarios()
         if tier == 'quick':
             pairs = pairs[:len(pairs) // 4]
@@ -1881,10 +1923,10 @@ def main(tier, seed, replay=None):
         'first_drift': [{'at': a, 'event': t['ev'][a - 1] if 0 < a <= len(t['ev']) else None,
                          'schedule': t['detail']['schedule']} for (t, a) in drift[:2]]}
     out.evaluations = len(all_traces)
-    out.distinct = len({json.dumps([e for e in t['ev'] if e['e'] != 'step'], sort_keys=True) for t in all_traces})
-    nset = sum(1 for t in all_traces for e in t['ev'] if e['e'] == 'call' and e['k'] == 'set')
+    out.distinct = len({t['stats']['key'] for t in all_traces})
+    nset = sum(t['stats']['nset'] for t in all_traces)
     out.extra['set_calls_judged'] = nset
-    out.extra['api_calls_judged'] = sum(1 for t in all_traces for e in t['ev'] if e['e'] == 'call')
+    out.extra['api_calls_judged'] = sum(t['stats']['ncall'] for t in all_traces)
     out.extra['violations_by_signature'] = {}
     for (t, clause, at) in bad:
         sg = signature(t, clause, at)
